@@ -89,7 +89,7 @@ def _suitable(fn: ast.FunctionDef) -> bool:
     if x is fn:
       continue
     if isinstance(x, (ast.Yield, ast.YieldFrom, ast.Global, ast.Nonlocal, ast.FunctionDef, ast.AsyncFunctionDef,
-                      ast.ClassDef, ast.Await, ast.Lambda)):
+                      ast.ClassDef, ast.Await)):
       return False
     if isinstance(x, ast.stmt):
       n_stmts += 1
@@ -255,6 +255,19 @@ class _Subst(ast.NodeTransformer):
     return node
 
   def visit_arg(self, node):
+    return node
+
+  def visit_Lambda(self, node: ast.Lambda):
+    # the lambda's own parameters shadow whatever is being substituted / renamed
+    own = {a.arg for a in node.args.args + node.args.kwonlyargs + node.args.posonlyargs}
+    if node.args.vararg:
+      own.add(node.args.vararg.arg)
+    if node.args.kwarg:
+      own.add(node.args.kwarg.arg)
+    inner = _Subst({k: v for k, v in self.mapping.items() if k not in own}, {k: v for k, v in self.rename.items() if k not in own})
+    node.body = inner.visit(node.body)
+    for i, d in enumerate(node.args.defaults):
+      node.args.defaults[i] = self.visit(d)
     return node
 
 
